@@ -259,6 +259,27 @@ MUTANTS = [
     ('C17', 'record-iterator-short-data', FS,
      "            if h.plen:\n                data = self._file.read(h.plen)\n            else:\n                if h.back == 0:",
      "            if h.plen:\n                data = self._file.read(h.plen)[:-1] + b'!'\n            else:\n                if h.back == 0:"),
+    ('C10', 'resolver-args-swapped', CR,
+     "        resolved = resolve(old, committed, newstate)",
+     "        resolved = resolve(committed, old, newstate)"),
+    ('C10', 'resolved-oid-not-reported', FS,
+     "                    data = self.tryToResolveConflict(oid, committed_tid,\n                                                     oldserial, data)\n                    self._resolved.append(oid)",
+     "                    data = self.tryToResolveConflict(oid, committed_tid,\n                                                     oldserial, data)"),
+    ('C10', 'old-state-from-committed-serial', CR,
+     "        oldData = self.loadSerial(oid, oldSerial)",
+     "        oldData = self.loadSerial(oid, committedSerial)"),
+    ('C10', 'resolver-exception-commits-new', CR,
+     "        logger.exception(\n            \"Unexpected error while trying to resolve conflict on %s\", klass)\n\n    raise ConflictError",
+     "        logger.exception(\n            \"Unexpected error while trying to resolve conflict on %s\", klass)\n        return newpickle\n\n    raise ConflictError"),
+    ('C10', 'writer-keeps-resolved-copy', CN,
+     "                if obj is not None:\n                    del obj._p_changed  # transition from changed to ghost",
+     "                if obj is not None:\n                    pass"),
+    ('C10', 'demo-resolved-not-reported', DS,
+     "            self.changes.store(oid, old, rdata, '', transaction)\n            self._resolved.append(oid)",
+     "            self.changes.store(oid, old, rdata, '', transaction)"),
+    ('C10', 'weak-references-dropped', CR,
+     "def persistent_id(object):\n    if getattr(object, '__class__', 0) is not PersistentReference:\n        return None\n    return object.data",
+     "def persistent_id(object):\n    if getattr(object, '__class__', 0) is not PersistentReference:\n        return None\n    return object.data if not object.weak else object.oid"),
 ]
 
 
